@@ -317,6 +317,20 @@ def term_shapes():
         ("BVULT", u, v), ("Equals", ("BVAdd", u, v), ("BVNot", u)), ("BVSLE", ("BVConcat", u, v), ("BVZExt", u, 4)),
         ("Equals", ("BVExtract", u, 1, 2), ("BVExtract", v, 0, 1)), ("Equals", ("BVToNatural", u), x),
         ("LT", ("BVToNatural", u), ("BVToNatural", v)), ("Equals", ("StrLength", st), ("StrLength", ("StrConcat", st, st))),
+        # array values whose contents are terms (symbols, applications), not constants
+        ("Equals", ("Array", ("type", INT), x), arr), ("Equals", ("Array", ("type", INT), ("lit", 0, INT), ("dict", (("lit", 1, INT), f(y)))), arr),
+        ("Equals", ("Array", ("type", INT), ("lit", 0, INT), ("dict", (("lit", 1, INT), ("BVToNatural", u)))), arr),
+        ("Select", ("Array", ("type", INT), ("lit", False, BOOL), ("dict", (("lit", 2, INT), p(x)))), y),
+        # a function whose parameter sort occurs nowhere else (compound argument of a new sort)
+        ("Equals", ("fun", "f8", ("BV", 4), (("BV", 8),), ("BVConcat", u, v)), u),
+        ("Equals", ("fun", "fr", INT, (REAL,), ("ToReal", x)), y), ("Equals", ("fun", "fs", INT, (("STRING",),), ("IntToStr", x)), y),
+        ("Equals", ("fun", "fb", INT, (BOOL,), ("LT", r, s_)), y), ("Equals", ("fun", "f1", INT, (("BV", 1),), ("BVComp", u, v)), y),
+        # a user sort that occurs inside an array sort only
+        ("Equals", S("au1", ("ARRAY", INT, US)), S("au2", ("ARRAY", INT, US))),
+        ("Equals", S("an1", ("ARRAY", INT, ("ARRAY", US, ("CUSTOM", "T")))), S("an2", ("ARRAY", INT, ("ARRAY", US, ("CUSTOM", "T"))))),
+        # binders over variables that do not occur in the body, with names that need quoting
+        ("forall", [("x", INT), ("y", INT)], ("LT", ("lit", 0, INT), x)), ("exists", [("b", BOOL)], a),
+        ("forall", [("x'", INT), ("idx[0]", INT)], ("LT", S("x'", INT), S("idx[0]", INT))),
         ("LT", ("ToReal", x), r), ("Equals", ("Div", r, s_), r), ("LE", ("Pow", r, ("lit", 2, REAL)), s_),
         ("LE", ("Pow", r, ("lit", -1, REAL)), s_), ("LE", ("Pow", r, ("lit", Fraction(1, 2), REAL)), s_),
         ("LE", ("Pow", ("Plus", r, s_), ("lit", 3, REAL)), s_), ("LE", ("Pow", r, ("lit", -2, REAL)), ("Pow", s_, ("lit", 1, REAL))),
